@@ -101,7 +101,9 @@ def run(ctx):
             ncut = rng.choice((0, 1, 3, 10, 50, len(S) // 2))
             cuts = sorted(rng.sample(range(1, max(2, len(S))), min(max(len(S) - 1, 0), ncut))) if len(S) > 2 else []
             yield ("sockreader", {"S": S.hex(), "cuts": cuts, "bufsize": rng.choice((1, 2, 3, 5, 64, 4096)), "end": rng.choice(("close", "timeout")),
-                                  "msgmode": rng.choice((0, 0, 1, 3)), "pbf": rng.choice((0, 1))})
+                                  "msgmode": rng.choice((0, 0, 1, 3)), "pbf": rng.choice((0, 1)), "validate": rng.choice((1, 1, 0)),
+                                  "filter": rng.choice((7, 7, 7, 1, 2, 4, 3, 5, 6)), "parsing": rng.choice((1, 1, 1, 0)), "quit": rng.choice((0, 1)),
+                                  "labelmsm": rng.choice((1, 2))})
 
     def gen_real():
         for k in range(24 if not big else 200):
